@@ -3,10 +3,12 @@
    nat stay Coq datatypes (2^64 does not fit an OCaml int). No Extract Constant. *)
 From Coq Require Import List NArith ZArith Bool.
 From Coq Require Extraction ExtrOcamlBasic.
-From GY Require Import Model.Indent Spec.C20.
+From GY Require Import Base.Outcome Model.Indent Spec.C20 Model.Number Model.Range Model.Enum.
 
 Extraction Language OCaml.
 Separate Extraction
   Z.add Z.mul Z.sub Z.opp Z.div_eucl Z.of_N Z.to_N Z.of_nat Z.to_nat N.of_nat N.to_nat
   N.add N.mul N.div_eucl Z.compare N.compare
-  Indent.run Indent.NewWriter Indent.Bytes C20.spec_indent.
+  Indent.run Indent.NewWriter Indent.Bytes C20.spec_indent
+  Number.Less Number.Equal Number.Int Number.String_ Number.ParseInt Number.ParseDecimal Number.asRangeInt
+  Range.parseChildRanges Range.coalesce Enum.run_members.
